@@ -290,3 +290,53 @@ VP_HARNESS(h_enc_twice)
                 if (b < (*fr)[f].size())
                     vp_assert((*fr)[f][b] == m->bytes[f][b], "C10: same frame bytes as a fresh encoder (counter offset aside)");
 }
+
+// C10, literally: the same batch with the same configuration on a fresh encoder and on one that has made an earlier call
+// with another configuration (PMIN/PMAX, other message type, other version). Both sides are the real encoder, so the
+// batch's configuration may be anything, including minimum > maximum (where the frame model above does not apply).
+#ifndef PMIN
+#define PMIN 0
+#endif
+#define FBYTES ((MAXB > MINB ? MAXB : MINB) + 8)
+VP_HARNESS(h_enc_diff)
+{
+    Src* s = &g_src;
+    drawSrc(*s);
+    Packet* pk[3] = {nullptr, nullptr, nullptr};
+    for (unsigned i = 0; i < K; ++i)
+        pk[i] = mkPacket(*s, i);
+    Encoder* used = new Encoder;
+    used->setDeviceId(s->deviceId);
+    used->setStreamId(s->streamId);
+    {
+        static uint8_t junk[LMAX];
+        vp_bytes(junk, PL0);
+        Payload pl(PayloadType(static_cast<CmpHeader::MessageType>(PT0), RT), junk, PL0);
+        Packet* p0 = new Packet;
+        p0->setPayload(pl);
+        p0->setVersion(static_cast<uint8_t>(s->version ^ 0x5A));
+        p0->setTimestamp(vp_u64());
+        DataContext c0{PMIN, PMAX};
+        Frames* f0 = new Frames(used->encode(*p0, c0));
+        vp_assert(f0->size() >= 1, "C10: the earlier call produced frames");
+    }
+    const uint16_t off = used->getSequenceCounter();
+    Encoder* fresh = new Encoder;
+    fresh->setDeviceId(s->deviceId);
+    fresh->setStreamId(s->streamId);
+    Frames* a = doEncode(*fresh, pk);
+    Frames* b = doEncode(*used, pk);
+    vp_assert(a->size() == b->size(), "C10: same number of frames as a fresh encoder");
+    for (unsigned f = 0; f < MAXF; ++f)
+        if (f < a->size() && f < b->size())
+        {
+            vp_assert((*a)[f].size() == (*b)[f].size(), "C10: same frame sizes as a fresh encoder");
+            if ((*a)[f].size() != (*b)[f].size() || (*a)[f].size() < 8)
+                continue;
+            const uint16_t ca = vp_be16((*a)[f].data() + 6), cb = vp_be16((*b)[f].data() + 6);
+            vp_assert(static_cast<uint16_t>(ca + off) == cb, "C10: sequence counters differ from a fresh encoder's by a constant offset");
+            for (unsigned i = 0; i < FBYTES; ++i)
+                if (i < (*a)[f].size() && i != 6 && i != 7)
+                    vp_assert((*a)[f][i] == (*b)[f][i], "C10: same frame bytes as a fresh encoder (counter offset aside)");
+        }
+}
